@@ -48,6 +48,7 @@ class Ctl(object):
         self.stored = set()
         self.inflight = set()
         self.inner_busy = 0
+        self.stall_marker = None   # a delivery program that is going to outlive its timeout says so by creating this file
 
     def log(self, **kw):
         self.ev.append(kw)
@@ -266,6 +267,71 @@ class GRelay(Relay):
         return dict(pairs)
 
 
+class RecRelay(Relay):
+    """A real relay (SMTP/LMTP client pool against a scripted peer, pipe relay with real child processes, HTTP relay)
+    in front of the queue: records what each attempt returned or raised in the vocabulary of GRelay, and hands the very
+    same object on to the queue.  A recipient that a per-recipient result says nothing about is in none of ok/perm/temp."""
+
+    def __init__(self, ctl, inner, realtime=False, marker=None):
+        Relay.__init__(self)
+        self.ctl, self.inner, self.realtime, self.marker = ctl, inner, realtime, marker
+
+    def attempt(self, envelope, attempts):
+        import collections.abc
+        import os
+        c = self.ctl
+        sid = c.obj2id.get(id_(envelope), 0)
+        pos = positions(c, sid, envelope.recipients)
+        n = len(pos)
+        c.log(t='att_start', id=sid, rcpts=pos, attempts=int(attempts), now=c.now())
+        c.inflight.add(sid)
+        if self.realtime:
+            c.inner_busy += 1
+        try:
+            res = self.inner.attempt(envelope, attempts)
+        except TransientRelayError as e:
+            c.log(t='att_end', id=sid, kind='raiseT', rcpts=list(pos), ok=[], perm=[], temp=list(pos), rid=[rid_of(e.reply)] * n, now=c.now())
+            raise
+        except PermanentRelayError as e:
+            c.log(t='att_end', id=sid, kind='raiseP', rcpts=list(pos), ok=[], perm=list(pos), temp=[], rid=[rid_of(e.reply)] * n, now=c.now())
+            raise
+        except gevent.GreenletExit:
+            raise
+        except Exception:
+            c.log(t='att_end', id=sid, kind='raiseX', rcpts=list(pos), ok=[], perm=[], temp=list(pos), rid=[0] * n, now=c.now())
+            raise
+        finally:
+            c.inflight.discard(sid)
+            if self.realtime:
+                c.inner_busy -= 1
+            if self.marker and os.path.exists(self.marker):
+                os.unlink(self.marker)
+        if res is None or isinstance(res, Reply):
+            c.log(t='att_end', id=sid, kind='ok' if res is None else 'reply', rcpts=list(pos), ok=list(pos), perm=[], temp=[], rid=[], now=c.now())
+            return res
+        if isinstance(res, collections.abc.Mapping):
+            vals = [res.get(a, Ellipsis) for a in envelope.recipients]
+            kind = 'map'
+        else:
+            vals = list(res) + [Ellipsis] * (n - len(res))
+            kind = 'seq'
+        ok, perm, temp, rids = [], [], [], []
+        for p_, v in zip(pos, vals):
+            if v is None or isinstance(v, Reply):
+                ok.append(p_)
+                rids.append(0)
+            elif isinstance(v, PermanentRelayError):
+                perm.append(p_)
+                rids.append(rid_of(v.reply))
+            elif isinstance(v, TransientRelayError):
+                temp.append(p_)
+                rids.append(rid_of(v.reply))
+            else:
+                rids.append(0)
+        c.log(t='att_end', id=sid, kind=kind, rcpts=list(pos), ok=ok, perm=perm, temp=temp, rid=rids, now=c.now())
+        return res
+
+
 def rid_of(reply):
     m = re.search(r'rid(\d+)', reply.message or '')
     return int(m.group(1)) if m else 0
@@ -285,7 +351,14 @@ class Scenario(object):
         if cfg.get('gate_ops'):
             self.store.gate_ops = set(cfg['gate_ops'])
         fr = list(cfg.get('fast_relay') or [])
-        if fr:
+        self.real = None
+        if cfg.get('real_relay'):
+            from . import realrelay
+            inner_relay, self.real, realtime, marker = realrelay.build(cfg['real_relay'])
+            CLOCK.reset(1000.0)
+            c.stall_marker = marker
+            self.relay = RecRelay(c, inner_relay, realtime=realtime, marker=marker)
+        elif fr:
             self.relay = GRelay(c, gate=False, script=lambda sid, pos, attempts: fr.pop(0) if fr else 'ok')
         else:
             self.relay = GRelay(c)
@@ -448,7 +521,8 @@ class Scenario(object):
         vt.settle()
         c = self.ctl
         n = 0
-        while c.inner_busy > 0 and n < 5000:
+        import os
+        while c.inner_busy > 0 and n < 5000 and not (c.stall_marker and os.path.exists(c.stall_marker)):
             gevent.sleep(0.001)
             vt.settle()
             n += 1
@@ -524,6 +598,8 @@ class Scenario(object):
                 pass
         from . import backends
         backends.cleanup_disk(self.inner)
+        if self.real is not None:
+            self.real.close()
         return c.ev, taken
 
 
